@@ -3,6 +3,7 @@ import GormModel.Model.Scan
 import GormModel.Model.SchemaAttrs
 import GormModel.Model.Serializer
 import GormModel.Gen.BackfillFacts
+import GormModel.Gen.SchemaDeclFacts
 open Lean
 namespace Gorm.Drv
 open Gorm.Scan
@@ -277,7 +278,7 @@ def handleC03 (op : String) (args : Array Json) : Option Json := do
     --   "error" | "unmodelled" | single: [[column, value]…] | slice: [columns, [[value|null]…]]
     let sch ← match arg args 1 with
       | Json.null => some none
-      | d => do some (some (Attrs.parseDecl (← parseADecl 200 (← jArr? d).toList)))
+      | d => do some (some (Attrs.parseDecl Gen.priorityNeedsColumn (← parseADecl 200 (← jArr? d).toList)))
     let sels ← (← jArr? (arg args 2)).toList.mapM jStr?
     let oms ← (← jArr? (arg args 3)).toList.mapM jStr?
     let single ← jBool? (arg args 4)
@@ -340,7 +341,8 @@ def handleC03 (op : String) (args : Array Json) : Option Json := do
   | "c03.facts" =>
     -- regenerated facts the back-fill model follows (extract/gen_c03.go)
     some (Json.mkObj [("guardsKeyKind", Json.bool Gen.backfillGuardsKeyKind), ("mapsSkipPreset", Json.bool Gen.backfillMapsSkipPreset),
-      ("createFound", Json.bool Gen.backfillCreateFound), ("mapsLoopFound", Json.bool Gen.backfillMapsLoopFound)])
+      ("createFound", Json.bool Gen.backfillCreateFound), ("mapsLoopFound", Json.bool Gen.backfillMapsLoopFound),
+      ("priorityNeedsColumn", Json.bool Gen.priorityNeedsColumn)])
   | "c03.backfill" =>
     -- ["c03.backfill", reversed, hasDefault, autoInc, intType, inc, keys, rowsAffected, lastId|null]
     let rev ← jBool? (arg args 1)
@@ -438,7 +440,7 @@ def handleC03 (op : String) (args : Array Json) : Option Json := do
     let qs ← (← jArr? (arg args 2)).toList.mapM (fun q => do
       let a ← jArr? q
       some (← jBool? (arg a 0), ← parseBoolList (arg a 1)))
-    let s := Attrs.parseDecl d
+    let s := Attrs.parseDecl Gen.priorityNeedsColumn d
     if s.unmodelled then some (Json.str "unmodelled")
     else if s.bad then some (Json.str "error")
     else
